@@ -93,13 +93,13 @@ Theorem C16_unknown_pika_option_rejected :
       parse_tokens (S fuel) (t :: r) false p = parse_tokens fuel r false (add_unreg t p)) /\
   (forall fuel ts term p q,
       parse_tokens fuel ts term p = inl q -> p_unreg p <> [] -> p_unreg q <> []) /\
-  (forall env p cfg m ok f arg0 pco args,
-      p_unreg p <> [] -> forall c, handle env p cfg m ok f (fun _ => app_argv arg0 pco args p) <> Started c).
+  (forall env p cfg m ok f ex arg0 pco args,
+      p_unreg p <> [] -> forall c, handle env p cfg m ok f (fun _ => app_argv ex arg0 pco args p) <> Started c).
 Proof.
   split; [exact unknown_token_unregistered|split; [exact parse_unreg_mono|]].
-  intros env p cfg m ok f arg0 pco args H.
-  exact (argv_rejected_not_started env p cfg m ok f (fun _ => app_argv arg0 pco args p) RLateUnknown
-           (unregistered_rejected arg0 pco args p H)).
+  intros env p cfg m ok f ex arg0 pco args H.
+  exact (argv_rejected_not_started env p cfg m ok f (fun _ => app_argv ex arg0 pco args p) RLateUnknown
+           (unregistered_rejected ex arg0 pco args p H)).
 Qed.
 Print Assumptions C16_unknown_pika_option_rejected.
 
@@ -163,6 +163,23 @@ Proof.
 Qed.
 Print Assumptions C16_app_args_refuted.
 
+(* the dollar sign: the rebuilt command line is stored in the ini entry pika.reconstructed_cmd_line and
+   read back by init_helper through get_config_entry, which expands ${NAME} / ${NAME:default} (environment)
+   and $[key] / $[key:default] (other configuration entries): an application argument is replaced by the
+   value of an environment variable / of a runtime setting, split at the blanks of that value, or turned
+   into the empty argument.  Finding C16:app_args:dollar_expanded; the first two witnesses are replayed on
+   the real code on every run (tools/props/c16.py, fixed cases) and agree with the model. *)
+Theorem C16_app_args_dollar_refuted :
+  (exists c, run [("HOME", "/c16home")] M16 "./prog" ["${HOME}"; "x"] = Started c /\ c_argv c = ["/c16home"; "x"]) /\
+  (exists c, run [] M16 "./prog" ["$[pika.os_threads]"; "--pika:threads=3"] = Started c /\ c_argv c = ["3"]) /\
+  (exists c, run [("HOME", "/a b")] M16 "./prog" ["${HOME}"; "x"] = Started c /\ c_argv c = ["/a"; "b"; "x"]) /\
+  (exists c, run [] M16 "./prog" ["a${C16_UNSET:dflt}b"; "$[pika.nosuch]"] = Started c /\ c_argv c = ["adfltb"; ""]) /\
+  (exists c, run [] M16 "./prog" ["a$b"; "$"; "x$"] = Started c /\ c_argv c = ["a$b"; "$"; "x$"]).
+Proof.
+  repeat split; eexists; (split; vm_compute; reflexivity).
+Qed.
+Print Assumptions C16_app_args_dollar_refuted.
+
 (* app_args_unchanged, END TO END.  The guard is the boolean predicate
      arg_safe a = nonempty a && all_safe a,   all_safe a = every character c of a satisfies
      safe_char c = negb (c is double quote || c is single quote || c is backslash || c is dollar)
@@ -172,9 +189,10 @@ Print Assumptions C16_app_args_refuted.
    split_unix copies blanks inside quotes); the three excluded characters and the empty argument are exactly
    the classes of the finding C16:app_args:quote_backslash_or_empty (C16_app_args_refuted has a witness for
    each).  The dollar sign is excluded in addition because the rebuilt line is read back through
-   get_config_entry, which expands ${NAME} and $[key] (observed on the real code: ./prog '${HOME}' arrives as
-   /root); the model does not apply that expansion to this entry, so for the dollar sign it is not trusted
-   (finding C16:app_args:dollar_expanded).
+   get_config_entry, which expands ${NAME} and $[key] (./prog '${HOME}' arrives as /root); the model applies
+   that expansion too (app_argv's [ex] = expand_entry; C16_app_args_dollar_refuted above), so `$` must stay in
+   the guard (finding C16:app_args:dollar_expanded): without `$` in the line the expansion is the identity
+   (expand_entry_nodl).
    The guard is imposed on argv[0] and on EVERY argument (the prepended tokens of PIKA_COMMANDLINE_OPTIONS
    included), because option values travel through the same re-quoting and an unbalanced quote in one of them
    swallows the arguments that follow.
